@@ -733,6 +733,10 @@ func init() {
 					x.Flag = &b
 					tag += fmt.Sprintf(":bool=%v", b)
 				}
+				if c.Choose("deep", 2) == 1 {
+					x.Deep = [][][][][][][]int64{{{{{{{1, 2}}}}}}}
+					tag += ":deep"
+				}
 				if v := c.Choose("uint64", 4); v > 0 {
 					u := []uint64{0, 1 << 63, 1<<64 - 1}[v-1]
 					x.Big = &u
@@ -775,7 +779,7 @@ func init() {
 					c.Failf(id+":round-trip-differs:"+tag, "getters\n before %s\n after  %s", g1, g2)
 				}
 				eqT := (x.IssuedAt == nil) == (yp.IssuedAt == nil) && (x.IssuedAt == nil || x.IssuedAt.Equal(*yp.IssuedAt))
-				if !eqT || !reflect.DeepEqual(x.Ratio, yp.Ratio) || !reflect.DeepEqual(x.Flag, yp.Flag) || !reflect.DeepEqual(x.Big, yp.Big) {
+				if !eqT || !reflect.DeepEqual(x.Ratio, yp.Ratio) || !reflect.DeepEqual(x.Flag, yp.Flag) || !reflect.DeepEqual(x.Big, yp.Big) || !reflect.DeepEqual(x.Deep, yp.Deep) {
 					c.Failf(id+":round-trip-differs:added-claims:"+tag, "the added claims differ after the round trip: time %v/%v float %v/%v bool %v/%v uint64 %v/%v", x.IssuedAt, yp.IssuedAt, x.Ratio, yp.Ratio, x.Flag, yp.Flag, x.Big, yp.Big)
 				}
 				if b2, err := enc(y); err != nil || !bytes.Equal(b1, b2) {
@@ -981,6 +985,42 @@ func init() {
 					if seen[k] != extra[k] {
 						c.Failf(fmt.Sprintf("C10:added-claim:%s:%d", tag, k), "claim %d set=%v, in the map=%v", k, extra[k], seen[k])
 					}
+				}
+			}
+		}, nil
+	}
+	// C10: a derived claims type that embeds a struct with an unexported type name (exported, tagged fields)
+	Scenarios["c10.unexported-embedded-type"] = func() (choice.Scenario, func() any) {
+		return func(c *choice.Ctx) {
+			a := genValidOpt(c, kindP2, false, true)
+			xi, err := buildBySetters(a)
+			if err != nil {
+				return
+			}
+			five := int64(5)
+			o := ExtLowerEmbedClaims{P2Claims: *(xi.(*psatoken.P2Claims))}
+			set := c.Choose("lower-claim", 2) == 0
+			if set {
+				o.Lower = &five
+			}
+			tag := fmt.Sprintf("P2:unexported-embedded-type:set=%v", set)
+			encStats.StateStr(tag + a.String())
+			enc, err := extEM.Marshal(o)
+			encStats.Trans.Add(1)
+			if err != nil {
+				c.Failf("C10:encode-error:"+tag, "%v", err)
+				return
+			}
+			c10Strict(c, encStats, a, enc, tag, map[int64]bool{-75900: true})
+			if n, perr := mcbor.DecodeAll(enc); perr == nil && n.K == mcbor.Map {
+				seen := false
+				for _, p := range n.Pairs {
+					if k, _ := p[0].Int(); k == -75900 {
+						seen = true
+					}
+				}
+				if seen != set {
+					c.Failf("C10:added-claim:"+tag, "claim -75900 set=%v, in the map=%v", set, seen)
 				}
 			}
 		}, nil
@@ -1718,6 +1758,7 @@ func init() {
 						exploreChoiceOpts(r, "c10.plain-embedding-types", 2, dl, 1)
 						exploreChoiceOpts(r, "c10.wrapper-first-use", 1, dl, 1)
 						exploreChoice(r, "c10.three-levels-over-p1", 2, dl)
+						exploreChoice(r, "c10.unexported-embedded-type", 2, dl)
 						exploreChoice(r, "c10.caller-reuses-list", -1, dl)
 					}
 				}
